@@ -64,7 +64,7 @@ def cut_stream(rng, frames, mode):
 
 
 def canon_real(fe, real):
-    outs, escs, dumps, alive = real
+    outs, escs, dumps, alive, control = real
     return {'out': [[b for f in o for b in f] for o in outs], 'escaped': escs, 'dumps': dumps}
 
 
